@@ -248,7 +248,7 @@ u_big(uint64_t idx, void *arg)
 void
 harness_run(void)
 {
-    for (uint64_t i = 0; i < (vh_tier ? 4000u : 160u); i++)
+    for (uint64_t i = 0; i < (vh_tier ? 24000u : 160u); i++)
         vh_unit("emit", i, u_emit, NULL);
     for (uint64_t i = 0; i < (vh_tier ? 64u : 8u); i++)
         vh_unit("big", i, u_big, NULL);
